@@ -596,6 +596,7 @@ def run(ck, prog):
     ck.doc('C06.R9', 'folding intervals accumulates: stores into the merged map look the attribute set up first and overwrite only with a value built from the found aggregation', 2)
     ck.doc('C06.R8', 'a collector answers with the reader\'s temporality for this instrument type on this call (asked on every path, no cached state)', 2)
     ck.doc('C08.R2', '(shared rule, see C08) every constructor / mutation of the series key ends in UpdateHash()', 5)
+    ck.doc('C08.R1', '(shared rule, see C08) the series key is a sorted map and its equality compares contents (two attribute sets share a series exactly when equal)', 2)
     ck.doc('C08.R4', '(shared rule, see C08) overflow guard arithmetic; lookup miss -> overflow test -> insertion in every GetOrSetDefault', 5)
     with ck.canary('C06.R1'):
         rule_r1_sync(ck, prog, cls='canary::c06::BadStorage')
@@ -613,4 +614,6 @@ def run(ck, prog):
     from . import c08
     c08.rule_r4(ck, prog)
     c08.rule_r2(ck, prog)
+    c08.rule_r1(ck, prog)
+    c08.rule_r1_consistency(ck, prog)
     return {}
